@@ -662,9 +662,17 @@ func main() {
 	dc := load("x/ecocredit/basket/types/v1/types_date_criteria.go")
 	dcBody := dc.MustFunc("DateCriteria.Validate").Body
 	minStart, _ := dc.MustCompare(dcBody, "minStartDate.Seconds", token.LSS, "DateCriteria.Validate")
-	dc.MustNoOtherCompare(dcBody, "minStartDate.Seconds", []token.Token{token.LSS}, "DateCriteria.Validate")
+	maxStart, _ := dc.MustCompare(dcBody, "minStartDate.Seconds", token.GTR, "DateCriteria.Validate")
+	dc.MustNoOtherCompare(dcBody, "minStartDate.Seconds", []token.Token{token.LSS, token.GTR}, "DateCriteria.Validate")
+	startNanosLo, _ := dc.MustCompare(dcBody, "minStartDate.Nanos", token.LSS, "DateCriteria.Validate")
+	startNanosHi, _ := dc.MustCompare(dcBody, "minStartDate.Nanos", token.GEQ, "DateCriteria.Validate")
+	dc.MustNoOtherCompare(dcBody, "minStartDate.Nanos", []token.Token{token.LSS, token.GEQ}, "DateCriteria.Validate")
 	minWindow, _ := dc.MustCompare(dcBody, "startDateWindow.Seconds", token.LSS, "DateCriteria.Validate")
-	dc.MustNoOtherCompare(dcBody, "startDateWindow.Seconds", []token.Token{token.LSS}, "DateCriteria.Validate")
+	maxWindow, _ := dc.MustCompare(dcBody, "startDateWindow.Seconds", token.GTR, "DateCriteria.Validate")
+	dc.MustNoOtherCompare(dcBody, "startDateWindow.Seconds", []token.Token{token.LSS, token.GTR}, "DateCriteria.Validate")
+	windowNanosLo, _ := dc.MustCompare(dcBody, "startDateWindow.Nanos", token.LSS, "DateCriteria.Validate")
+	windowNanosHi, _ := dc.MustCompare(dcBody, "startDateWindow.Nanos", token.GEQ, "DateCriteria.Validate")
+	dc.MustNoOtherCompare(dcBody, "startDateWindow.Nanos", []token.Token{token.LSS, token.GEQ}, "DateCriteria.Validate")
 
 	// ---------- typed scan ----------
 	w := astx.NewWorld(*repo)
@@ -807,7 +815,14 @@ func main() {
 	fmt.Fprintf(&sb, "Definition prune_lower_nanos : Z := %s.\n", coqZ(pruneNanos))
 	sb.WriteString("(* basket/types/v1/types_date_criteria.go DateCriteria.Validate: minStartDate.Seconds < <bound> and\n   startDateWindow.Seconds < <bound> are rejected *)\n")
 	fmt.Fprintf(&sb, "Definition date_criteria_min_start_seconds : Z := %s.\n", coqZ(minStart))
-	fmt.Fprintf(&sb, "Definition date_criteria_min_window_seconds : Z := %s.\n\n", coqZ(minWindow))
+	fmt.Fprintf(&sb, "Definition date_criteria_min_window_seconds : Z := %s.\n", coqZ(minWindow))
+	sb.WriteString("(* the same function rejects minStartDate.Seconds > <bound>, minStartDate.Nanos < <lo>, minStartDate.Nanos >= <hi>,\n   startDateWindow.Seconds > <bound>, startDateWindow.Nanos < <lo>, startDateWindow.Nanos >= <hi> *)\n")
+	fmt.Fprintf(&sb, "Definition date_criteria_max_start_seconds : Z := %s.\n", coqZ(maxStart))
+	fmt.Fprintf(&sb, "Definition date_criteria_start_nanos_lo : Z := %s.\n", coqZ(startNanosLo))
+	fmt.Fprintf(&sb, "Definition date_criteria_start_nanos_hi : Z := %s.\n", coqZ(startNanosHi))
+	fmt.Fprintf(&sb, "Definition date_criteria_max_window_seconds : Z := %s.\n", coqZ(maxWindow))
+	fmt.Fprintf(&sb, "Definition date_criteria_window_nanos_lo : Z := %s.\n", coqZ(windowNanosLo))
+	fmt.Fprintf(&sb, "Definition date_criteria_window_nanos_hi : Z := %s.\n\n", coqZ(windowNanosHi))
 
 	sb.WriteString("(* ---- decimal constructors: (file, function, constructor) for every math.New*Dec* call and every\n")
 	sb.WriteString("   utils.GetNonNegativeFixedDecs call in */keeper, */types/v1, genesis and server/utils ---- *)\n")
